@@ -130,6 +130,19 @@ Theorem T12_complete_roundtrip_length : forall sl hls mi st body v vs n,
 Proof. exact complete_length. Qed.
 Print Assumptions T12_complete_roundtrip_length.
 
+(* ... and not mixed with what follows: a Content-Length framed response (the proxy's error response is one) followed by
+   ANY bytes — a pipelined second response, garbage — is parsed as exactly that response, and exactly those bytes are left
+   for the next message. *)
+Theorem T12_not_mixed_length : forall sl hls mi st body v vs n,
+  wf_head sl hls mi st -> (st / 100 =? 1) || (st =? 204) || (st =? 304) = false ->
+  values_of (b "transfer-encoding") (map kv_of hls) = [] ->
+  values_of (b "content-length") (map kv_of hls) = v :: vs -> parse_dec v = Some n -> all_same v vs = true ->
+  N.to_nat n = length body ->
+  forall tail eof, let r := client_parse (wire sl hls body ++ tail) eof false in
+  pv r = Complete /\ pstatus r = st /\ pbody r = body /\ prest r = tail /\ pframing r = 1.
+Proof. exact not_mixed_length. Qed.
+Print Assumptions T12_not_mixed_length.
+
 Theorem T12_complete_roundtrip_chunked : forall sl hls mi st cs te,
   wf_head sl hls mi st -> (st / 100 =? 1) || (st =? 204) || (st =? 304) = false ->
   values_of (b "transfer-encoding") (map kv_of hls) = te -> te <> [] ->
